@@ -1324,29 +1324,55 @@ pub fn exhaustive_operands(model: &mut Model, rep: &mut Report, mode: Mode) {
             flush(&mut batch, model, rep, false);
         }
     }
-    let edges: [u16; 12] = [0x0000, 0x0001, 0x0FFF, 0x1000, 0x7FFF, 0x8000, 0x8001, 0xF000, 0xFFFF, 0x0800, 0x07FF, 0xEFFF];
-    for &h in edges.iter() {
-        for &r in edges.iter() {
-            for c in 0..2u16 {
-                for opc in [0x42u8, 0x4A] {
-                    let mut st = base(0x8000);
-                    st.w[AF] = c;
-                    st.w[HL] = h;
-                    st.w[BC] = r;
-                    batch.push(one(st, vec![0xED, opc], vec![]));
-                }
-                let mut st = base(0x8000);
-                st.w[AF] = c;
-                st.w[HL] = h;
-                st.w[BC] = r;
-                batch.push(one(st, vec![0x09], vec![]));
-            }
-        }
-    }
     flush(&mut batch, model, rep, true);
 }
 
+/// 16-bit arithmetic at the operand boundaries where carry/half-carry/overflow/zero change — every
+/// register-pair form of ADD/ADC/SBC HL (and ADD IX/IY), both carries. Runs in every tier: a random
+/// operand pair hits e.g. HL + rr + CF = 0x10000 with probability 2^-16.
+pub fn boundary16(model: &mut Model, rep: &mut Report, mode: Mode) {
+    let edges: [u16; 14] = [
+        0x0000, 0x0001, 0x00FF, 0x0100, 0x07FF, 0x0800, 0x0FFF, 0x1000, 0x7FFF, 0x8000, 0x8001, 0xEFFF, 0xF000, 0xFFFF,
+    ];
+    let mut batch: Vec<Case> = vec![];
+    let mut codes: Vec<Vec<u8>> = vec![];
+    for opc in [0x42u8, 0x52, 0x62, 0x72, 0x4A, 0x5A, 0x6A, 0x7A] {
+        codes.push(vec![0xED, opc]);
+    }
+    for opc in [0x09u8, 0x19, 0x29, 0x39] {
+        codes.push(vec![opc]);
+        codes.push(vec![0xDD, opc]);
+        codes.push(vec![0xFD, opc]);
+    }
+    for &h in edges.iter() {
+        for &r in edges.iter() {
+            for c in 0..2u16 {
+                for code in &codes {
+                    let mut st = St::default();
+                    st.w[PC] = 0x8000;
+                    st.w[AF] = c | if (h ^ r) & 1 == 1 { 0xFF00 } else { 0 };
+                    st.w[HL] = h;
+                    st.w[IX] = h;
+                    st.w[IY] = h;
+                    st.w[BC] = r;
+                    st.w[DE] = r;
+                    st.w[SP] = r;
+                    batch.push(Case { st, seed: 0, io: vec![], mem: vec![(0x8000, code.clone())], steps: vec![Step { lines: 0, bus: 0xFF }] });
+                }
+            }
+            if batch.len() >= 512 {
+                run_batch(model, rep, mode, &batch, "tstates_boundary16");
+                batch.clear();
+            }
+        }
+    }
+    if !batch.is_empty() {
+        run_batch(model, rep, mode, &batch, "tstates_boundary16");
+    }
+}
+
 pub fn sweep(o: &Opts, mode: Mode, rep: &mut Report, model: &mut Model) {
+    boundary16(model, rep, mode);
     let mut rng = Rng::new(o.seed ^ 0xC01);
     let tables_differ = table_tie(rep, model);
     if o.thorough() || tables_differ {
